@@ -16,10 +16,10 @@ import (
 
 // Constants of the curve, written out here (not copied from the library).
 var (
-	P, _  = new(big.Int).SetString("57896044618658097711785492504343953926634992332820282019728792003956564819949", 10)  // 2^255-19
-	L, _  = new(big.Int).SetString("7237005577332262213973186563042994240857116359379907606001950938285454250989", 10)   // 2^252+27742317777372353535851937790883648493
-	D     *big.Int                                                                                                        // -121665/121666 mod p
-	RInvL *big.Int                                                                                                        // 2^-256 mod l
+	P, _  = new(big.Int).SetString("57896044618658097711785492504343953926634992332820282019728792003956564819949", 10) // 2^255-19
+	L, _  = new(big.Int).SetString("7237005577332262213973186563042994240857116359379907606001950938285454250989", 10)  // 2^252+27742317777372353535851937790883648493
+	D     *big.Int                                                                                                      // -121665/121666 mod p
+	RInvL *big.Int                                                                                                      // 2^-256 mod l
 	one   = big.NewInt(1)
 )
 
